@@ -52,7 +52,142 @@ def cases(tier):
     for i in range(n):
         # one case = all histories (<= depth) starting with file i
         out.append({"k": "hist", "first": i, "depth": depth})
+    # Part C: two statements forced to collide in ONE parse (same ParseContext, same first keyword)
+    for d, first, kinds, stmts in pair_groups(80 if tier == "quick" else 160):
+        for a in kinds:
+            out.append({"k": "pairs", "d": d, "a": a, "bs": stmts})
+    # Part D: the first-token hints that drive pruning, on EVERY reachable grammar node of every dialect,
+    # must not depend on which other nodes were asked first in the same parse context
+    for d in corpus.dialects():
+        out.append({"k": "hints", "d": d})
     return out
+
+
+def run_hints(case, res):
+    from sqlfluff.core.parser.context import ParseContext
+    from vf.props import c29
+
+    d = case["d"]
+    c29.walk(d, lambda *a: None, {"stats": {}})
+    dialect, nodes = c29.LAST_NODES[d]
+    nodes = [n for n in nodes if not (isinstance(n, type) and getattr(n, "match_grammar", None) is None)]
+
+    def hints(order):
+        ctx = ParseContext(dialect=dialect, max_parse_depth=255)
+        out = {}
+        for n in order:
+            try:
+                h = n.simple(parse_context=ctx, crumbs=None)
+                out[id(n)] = None if h is None else (tuple(sorted(h[0])), tuple(sorted(h[1])))
+            except Exception as e:
+                out[id(n)] = ("EXC", type(e).__name__)
+        return out
+
+    fwd = hints(nodes)
+    rev = hints(list(reversed(nodes)))
+    # and each node asked alone in a pristine context for the nodes where the two orders disagree
+    for n in nodes:
+        res["n"] += 1
+        a, b = fwd[id(n)], rev[id(n)]
+        if a != b:
+            res["fails"].append(
+                {
+                    "clause": "first_token_hint_depends_on_evaluation_order",
+                    "features": {"dialect": d},
+                    "detail": {"node": repr(n)[:120], "forward": str(a)[:200], "reverse": str(b)[:200]},
+                    "case": {"k": "hints", "d": d},
+                }
+            )
+        if a is not None and a[0] != "EXC":
+            res["nontrivial"] += 1
+    res["cls"].add(digest((d, len(nodes))))
+    res["sample"] = {"k": "hints", "d": d, "nodes": len(nodes)}
+
+
+_PG = {}
+
+
+def pair_groups(maxlen):
+    """-> [(dialect, first keyword, [representative statement per 2-keyword kind], [all statements])]
+    from the dialect fixtures, statements split at ';' line ends, both leading words upper-case keywords."""
+    import collections
+    import re
+
+    if maxlen in _PG:
+        return _PG[maxlen]
+    g = collections.defaultdict(lambda: (dict(), set()))
+    for d, p, t in corpus.fixtures(10**9):
+        for st in re.split(r";\s*\n", t):
+            st = st.strip().rstrip(";").strip()
+            if not st or len(st) > maxlen or ";" in st or "--" in st or "/*" in st:
+                continue
+            ws = st.split()
+            if len(ws) < 3 or not (ws[0].isalpha() and ws[0].isupper() and ws[1].isalpha() and ws[1].isupper()):
+                continue
+            kinds, allst = g[(d, ws[0])]
+            k2 = (ws[0], ws[1])
+            if k2 not in kinds or (len(st), st) < (len(kinds[k2]), kinds[k2]):
+                kinds[k2] = st
+            allst.add(st)
+    out = []
+    for (d, first), (kinds, allst) in sorted(g.items()):
+        if len(kinds) >= 2:
+            out.append((d, first, sorted(kinds.values()), sorted(allst, key=lambda s: (len(s), s))))
+    _PG[maxlen] = out
+    return out
+
+
+def stmt_shapes(lnt, text):
+    """-> (list of type-shapes of the top-level statements, has_parse_error)"""
+    p = lnt.parse_string(text)
+    if not p.parsed_variants or p.parsed_variants[0].tree is None:
+        return None, True
+    tree = p.parsed_variants[0].tree
+    shapes = [sq.type_shape(s) for s in tree.recursive_crawl("statement", recurse_into=False)]
+    return shapes, bool([v for v in p.violations if v.rule_code() == "PRS"])
+
+
+_ALONE = {}
+
+
+def run_pairs(case, res):
+    d, a = case["d"], case["a"]
+    lnt = sq.linter(d, "raw")
+
+    def alone(st):
+        key = (d, st)
+        if key not in _ALONE:
+            _ALONE[key] = stmt_shapes(lnt, st + ";\n")
+        return _ALONE[key]
+
+    sa, ea = alone(a)
+    for b in case["bs"]:
+        if b == a or ("only" in case and case["only"] != b):
+            continue
+        res["n"] += 1
+        sb, eb = alone(b)
+        if ea or eb or not sa or not sb or len(sa) != 1 or len(sb) != 1:
+            continue  # only statements that parse cleanly on their own as exactly one statement
+        sp, ep = stmt_shapes(lnt, a + ";\n" + b + ";\n")
+        one = {"k": "pairs", "d": d, "a": a, "bs": [b], "only": b}
+        if sp is None or len(sp) != 2 or sp[0] != sa[0]:
+            # the first statement legitimately takes what follows as its body (CREATE PROC ... AS, script
+            # bodies up to '/'): the pair is not two independent statements, nothing to compare
+            res["stats"]["pair_not_two_statements"] = res["stats"].get("pair_not_two_statements", 0) + 1
+            continue
+        if sp[1] != sb[0] or ep:
+            which = "second"
+            res["fails"].append(
+                {
+                    "clause": "statement_parses_differently_after_another",
+                    "features": {"which": which, "dialect": d},
+                    "detail": {"a": a, "b": b, "prs_in_pair": ep, "n_statements": None if sp is None else len(sp)},
+                    "case": one,
+                }
+            )
+        res["nontrivial"] += 1
+        res.setdefault("sample", one)
+        res["cls"].add(digest((d, a, b)))
 
 
 @contextlib.contextmanager
@@ -126,6 +261,12 @@ def run_case(case):
     res = {"n": 0, "fails": [], "cls": set(), "stats": {}, "nontrivial": 0}
     if case["k"] == "hist":
         run_hist(case, res)
+        return res
+    if case["k"] == "pairs":
+        run_pairs(case, res)
+        return res
+    if case["k"] == "hints":
+        run_hints(case, res)
         return res
     if case["k"] == "hist1":
         seq = case["seq"]
